@@ -526,3 +526,59 @@ End Proofs.
 
 Arguments cursor_only {A}. Arguments fetch_outs {A}. Arguments dead {A}. Arguments eager_at {A}.
 Arguments lazy_live {A}. Arguments all_eager {A}.
+
+(* ---------- the cursor never inspects a row ---------- *)
+Section MapProofs.
+Variables A B : Type.
+Variable f : A -> B.
+
+Lemma py_slice_map (l : list A) off len :
+  py_slice (map f l) off len = map f (py_slice l off len).
+Proof.
+  unfold py_slice. rewrite map_length. destruct len as [k|].
+  - destruct (k =? 0)%Z; [reflexivity|]. now rewrite skipn_map, firstn_map.
+  - now rewrite skipn_map.
+Qed.
+
+Lemma step_map (s : st A) (o : op A) :
+  step (map_st f s) (map_op f o) =
+  (map_st f (fst (step s o)), map_out f (snd (step s o))).
+Proof.
+  destruct s as [rs lz c a].
+  destruct o as [|k| |n| | |v|r|r]; unfold step, materialized, map_st, fetch_size, view_out;
+    cbn [map_op rows lazy cur asz].
+  - (* fetchone *)
+    destruct c as [p|]; [|reflexivity]. destruct lz.
+    + destruct rs as [|r rest]; reflexivity.
+    + rewrite nth_error_map. destruct (nth_error rs p); reflexivity.
+  - destruct c as [p|]; [|reflexivity]. destruct lz; cbn [fst snd map_out rows lazy cur asz].
+    + now rewrite skipn_map, firstn_map.
+    + rewrite skipn_map, firstn_map, !map_length. reflexivity.
+  - destruct c as [p|]; [|reflexivity]. destruct lz; cbn [fst snd map_out rows lazy cur asz map].
+    + reflexivity.
+    + now rewrite skipn_map, map_length.
+  - reflexivity.
+  - reflexivity.
+  - destruct lz; cbn [fst snd map_out rows lazy cur asz]; [|reflexivity].
+    now rewrite map_length.
+  - destruct v; destruct lz; cbn [fst snd map_out rows lazy cur asz];
+      rewrite ?map_length, ?py_slice_map; reflexivity.
+  - destruct lz; cbn [fst snd map_out rows lazy cur asz]; [reflexivity|].
+    now rewrite map_app, !app_length, map_length.
+  - destruct lz; cbn [fst snd map_out rows lazy cur asz]; now rewrite ?map_length.
+Qed.
+
+Lemma run_map (ops : list (op A)) : forall (s : st A),
+  run (map_st f s) (map (map_op f) ops) =
+  (map_st f (fst (run s ops)), map (map_out f) (snd (run s ops))).
+Proof.
+  induction ops as [|o r IH]; intros s; cbn [run map]; [reflexivity|].
+  rewrite step_map. destruct (step s o) as [s1 x]. cbn [fst snd].
+  rewrite IH. destruct (run s1 r) as [s2 xs]. reflexivity.
+Qed.
+
+Lemma init_map (l : list A) :
+  init_eager (map f l) = map_st f (init_eager l) /\ init_lazy (map f l) = map_st f (init_lazy l).
+Proof. split; reflexivity. Qed.
+
+End MapProofs.
